@@ -213,6 +213,14 @@ func (t *textReader) nextBeforeFieldName() (bool, error) {
 // BeforeTypeAnnotations state.
 func (t *textReader) nextBeforeTypeAnnotations() (bool, error) {
 	tok := t.tok.Token()
+	if len(t.annotations) > 0 {
+		switch tok {
+		case tokenEOF, tokenCloseBracket, tokenCloseParen:
+			// Annotations must be followed by the value they annotate.
+			return false, &SyntaxError{"annotations without a value", t.tok.Pos() - 1}
+		}
+	}
+
 	switch tok {
 	case tokenEOF:
 		if t.ctx.peek() == ctxAtTopLevel {
